@@ -26,6 +26,9 @@ def databases(name, rnd, tier, arrangement="shuffled"):
         rnd.shuffle(edge)
         via = [list(t) for t in sorted({(rnd.randrange(n), rnd.randrange(n)) for _ in range(300)})]
         return {"edge": edge, "via": via}
+    if name == "stress_set":
+        k = 1500
+        return {"src": [[key, 0] for key in range(k)]}
     raise vlib.ToolError(f"no stress database generator for {name}")
 
 
@@ -115,4 +118,74 @@ def run_stress(out, pid, tier, seed, progs_all, mods, bindir, work, pool_pairs=(
     out.extra["stress_databases"] = {it["prog"]["name"] + "/" + it["arr"]: {r: len(v) for r, v in it["inputs"].items()} for it in items}
     out.extra["stress_pool_pairs"] = [list(x) for x in pool_pairs]
     log(f"[stress] {pid}: {n} rounds on {len(items)} databases")
+    return n
+
+
+def run_push_history(out, pid, tier, seed, progs_all, mods, bindir, work):
+    """C13 on a large database: run; the caller pushes one more row for EVERY existing key of a lattice relation; run.
+    The second run must reach, key-wise joined, what a fresh run on everything pushed reaches (in particular the rule that
+    needs the JOIN of the derived and the pushed value must fire for every key), serial and parallel."""
+    p = next((q for q in progs_all if q["name"] == "stress_set"), None)
+    if p is None:
+        return 0
+    rnd = random.Random(seed)
+    first = databases("stress_set", rnd, tier)
+    pushed = [[row[0], [1]] for row in first["src"]]
+    items = [{"id": 1, "pi": 1, "inputs": {"src": first["src"], "s": pushed}, "prog": p}]
+    lms, evres = semlib.eval_least_models([p], items, os.path.join(work, "stress_hist"), chunks=1, timeout=900)
+    for r in evres:
+        out.add_tlc(r, "SemEval (least model of the pushed-lattice-rows database)")
+    lm = lms[1]
+    rounds = 3 if tier == "quick" else 20
+    cases = []
+    cid = 950000
+    for v, pools in (("ser", (0,)), ("par", (2, 4, 8)), ("pari", (8,))):
+        if (p["name"], v) not in mods:
+            continue
+        for pool in pools:
+            for k in range(rounds if v != "ser" else 1):
+                cid += 1
+                ops = [{"op": "push", "rel": "src", "rows": first["src"]}, {"op": "run", "pool": pool},
+                       {"op": "push", "rel": "s", "rows": pushed}, {"op": "run", "pool": pool}]
+                case = semlib.make_case(cid, p, 1, v, ops)
+                case["nohooks"] = True
+                cases.append(case)
+    raw, crashed = semlib.run_cases(cases, mods, bindir, os.path.join(work, "stress_hist"))
+    n, reported = 0, set()
+    for crate, rc, tail, culprit, others in crashed:
+        out.violation({"property": pid, "engine": "stress", "kind": "process-died", "detail": {"rc": rc, "output": tail},
+                       "summary": f"stress_set push history: the process died (rc={rc})"})
+    for c in cases:
+        ev = raw.get(c["id"])
+        if not ev:
+            continue
+        norm = semlib.normalise(c, p, ev)
+        states = [e for e in norm if e["e"] == "state"]
+        if len(states) < 2:
+            continue
+        n += 1
+        out.evaluations += 1
+        out.nontriv((c["prog"], c["var"], c["ops"][-1].get("pool"), c["id"]))
+        fin = states[-1]["rels"]
+        # lattice relation: key-wise join (set union) of the rows, the caller made two rows per key
+        joined = {}
+        for k, v in fin.get("s", []):
+            joined.setdefault(k, set()).update(v)
+        got_s = {json.dumps([k, sorted(v)]) for k, v in joined.items()}
+        want_s = {json.dumps([t[0], sorted(t[1])]) for t in lm["s"]}
+        got_b = {json.dumps(t) for t in fin.get("both", [])}
+        want_b = {json.dumps(t) for t in lm["both"]}
+        for rel, got, want in (("s", got_s, want_s), ("both", got_b, want_b)):
+            if got != want and (c["var"], rel) not in reported:
+                reported.add((c["var"], rel))
+                small = dict(c)
+                small["ops"] = [dict(o, rows=f"{len(o['rows'])} rows") if "rows" in o else o for o in c["ops"]]
+                out.violation({"property": pid, "engine": "stress", "kind": "wrong-result", "case": small,
+                               "detail": {"rel": rel, "n_missing": len(want - got), "n_extra": len(got - want),
+                                          "missing": [json.loads(x) for x in sorted(want - got)[:5]]},
+                               "summary": f"stress_set/{c['var']} pool {c['ops'][-1].get('pool')}: run; push a second row for each of the "
+                                          f"{len(pushed)} keys of lattice s; run: {rel} differs from a fresh run on everything pushed "
+                                          f"({len(want - got)} missing, {len(got - want)} extra)"})
+    out.extra["bulk_lattice_push_histories"] = n
+    log(f"[stress] {pid}: {n} bulk push histories")
     return n
